@@ -175,3 +175,78 @@ def run(ctx, R):
             R.check(t in fe and t in fi, "r5", "source/%s" % t.split(".")[-1], C.loc(cf["sp"]),
                     "output source %s is read by %s but not by %s: rows and declared outputs disagree for empty folds"
                     % (t, "the indexer" if t in fi else "the engine", "the engine" if t in fi else "the indexer"))
+    suspension_table(ctx, R)
+
+
+def suspension_table(ctx, R):
+    """r6: a context whose vertex cannot continue (failed implicit coercion in @recurse, missing @optional) is *suspended* and
+    restored later; the vertex it is restored to is what its outputs are read from. ensure_suspended / ensure_unsuspended are
+    abstractly evaluated on every (active vertex?, suspension stack) shape: suspending is idempotent (a second suspension of an
+    already suspended context must not bury the saved vertex under a None), un-suspending restores exactly the last saved
+    vertex, nothing else in the context changes - otherwise a non-optional output of a restored context is null."""
+    C = ctx.core
+    R.rule("r6", "context suspension: ensure_suspended idempotent, ensure_unsuspended restores the saved vertex, other fields untouched (table)")
+    DCP = "trustfall_core::interpreter::DataContext"
+    fs = {nm: [f for f in C.fns if f["name"] == nm and (f.get("self_ty") or "").split("<")[0] == DCP] for nm in ("ensure_suspended", "ensure_unsuspended")}
+    if any(len(v) != 1 for v in fs.values()):
+        R.fail("r6", "anchor", "-", "DataContext::ensure_suspended / ensure_unsuspended not found")
+        return
+    sus, unsus = fs["ensure_suspended"][0], fs["ensure_unsuspended"][0]
+    adt = C.adt_by_path.get(DCP)
+    other = [fl["name"] for fl in adt["variants"][0]["fields"] if fl["name"] not in ("active_vertex", "suspended_vertices")] if adt else []
+    I = S.intrinsics()
+
+    def mk(active, stack):
+        d = {"active_vertex": S.some(A.Sym(active)) if active else S.none(),
+             "suspended_vertices": A.VecV([S.some(A.Sym(x)) if x else S.none() for x in stack])}
+        for o in other:
+            d[o] = A.Sym("field:" + o)
+        return A.Struct(DCP, d)
+
+    def view(c):
+        c = A.deref(c)
+        av = A.deref(c.fields["active_vertex"])
+        st = [A.deref(x) for x in A.deref(c.fields["suspended_vertices"]).items]
+        name = lambda o: A.deref(o.fields[0]).name if o.variant == "Some" else None
+        keep = all(isinstance(A.deref(c.fields[o]), A.Sym) and A.deref(c.fields[o]).name == "field:" + o for o in other)
+        return (name(av), [name(x) for x in st], keep)
+
+    def run_(f, c):
+        return A.Interp(C, I).call_fn(f, [c])
+    n = 0
+    bad = None
+    try:
+        for active in ("v", None):
+            for stack in ([], ["w"], [None], ["w", None]):
+                c0 = (active, list(stack))
+                s1 = view(run_(sus, mk(active, stack)))
+                want1 = (None, stack + [active], True) if active else (None, list(stack), True)
+                n += 1
+                if s1 != want1 and bad is None:
+                    bad = ("ensure_suspended", c0, s1, want1)
+                s2 = view(run_(sus, run_(sus, mk(active, stack))))
+                n += 1
+                if s2 != want1 and bad is None:
+                    bad = ("ensure_suspended twice (idempotence)", c0, s2, want1)
+                if active or stack:
+                    u = view(run_(unsus, mk(active, stack)))
+                    wantu = (active, list(stack), True) if active else (stack[-1], stack[:-1], True)
+                    n += 1
+                    if u != wantu and bad is None:
+                        bad = ("ensure_unsuspended", c0, u, wantu)
+                if active:
+                    r = view(run_(unsus, run_(sus, run_(sus, mk(active, stack)))))
+                    n += 1
+                    if r != (active, list(stack), True) and bad is None:
+                        bad = ("suspend, suspend, unsuspend (a vertex that fails the implicit coercion at two recursion levels)", c0, r, (active, list(stack), True))
+    except A.Unsupported as e:
+        R.fail("r6", "unanalysable", C.loc(sus["sp"]), "cannot evaluate the suspension methods abstractly: %s (fail closed)" % e)
+        return
+    except A.PanicReached as e:
+        R.fail("r6", "panic", C.loc(sus["sp"]), "a suspension method panics on a reachable context shape: %s" % e.what)
+        return
+    R.floor("r6", "suspension cases", n, 20)
+    R.check(bad is None, "r6", "suspension-table", C.loc(sus["sp"]),
+            "%s on a context (active vertex, suspension stack) = %s gives (active, stack, other fields kept) = %s, expected %s: the context is "
+            "later restored to the wrong vertex (or to none), so outputs declared non-null come out null"
+            % (bad or ("", "", "", "")), {"cases": n})
